@@ -252,10 +252,16 @@ def eval_ones(case, rng, thorough):
 def eval_e2e(case, rng):
     quic = rng.random() < 0.4
     v6 = rng.random() < 0.5
+    # server port: a default one, a user-selected one (-p), or - QUIC only, which TLExport follows on any port - one outside every list
+    portkind = rng.choice(["443", "443", "44330", "selected", "unlisted" if quic else "selected"])
+    sport = {"443": 443, "44330": 44330}.get(portkind) or rng.choice([4433, 8443, 853, rng.randrange(1024, 30000)])
+    extra = ["-p", str(sport)] if portkind == "selected" else []
+    if rng.random() < 0.2:
+        extra += rng.choice([["-a"], ["-m"], ["-m", f"{sport}:{rng.randrange(1, 65536)}"]])
     if quic:
         s = quicsynth.random_qspec(rng, napp=rng.choice([3, 8]))
         conn = quicsynth.build_qconn(s, rng)
-        ep = tcpcap.random_ep(rng, v6=v6)
+        ep = tcpcap.random_ep(rng, v6=v6, sport=sport)
         fl = scene.quic_flow(conn, ep)
         what = f"quic-{s.suite:04X}"
     else:
@@ -263,7 +269,7 @@ def eval_e2e(case, rng):
         v, code, name, p = suites.pick(rng)
         spec, _ = tlssynth.random_spec(rng, v, code, nmax=10, big=False)
         conn = tlssynth.build_conn(spec, rng)
-        ep = tcpcap.random_ep(rng, v6=v6)
+        ep = tcpcap.random_ep(rng, v6=v6, sport=sport)
         segs = tcpcap.segments(conn.events, ep, tcpcap.make_cutter(rng, rng.choice(["mss", "random", "whole", "records"]), conn.events))
         fl = scene.tls_flow(conn, ep, segs)
         what = f"tls-{suites.VNAME[v]}"
@@ -293,10 +299,10 @@ def eval_e2e(case, rng):
     cap_bad = scene.capture(allitems)
     cap_removed = scene.capture([x[0] for x in out_items if not x[1]])
     keys = scene.keylog_text([fl], rng)
-    r1, files1, argv1 = e2e.run_capture(cap_bad, keys, ["-c"])
-    r2, files2, argv2 = e2e.run_capture(cap_removed, keys, [])
-    out = {"cls": ["e2e", what, "v6" if v6 else "v4", mode, "B>0" if nb else "B=0"], "tags": [f"e2e:{what.split('-')[0]}:{'v6' if v6 else 'v4'}"], "nontrivial": nb > 0,
-           "sample": {"case": case["id"], "flow": what, "endpoints": ep.describe(), "packets": len(allitems), "corrupted": nb, "mode": mode}}
+    r1, files1, argv1 = e2e.run_capture(cap_bad, keys, ["-c"] + extra)
+    r2, files2, argv2 = e2e.run_capture(cap_removed, keys, extra)
+    out = {"cls": ["e2e", what, "v6" if v6 else "v4", mode, "B>0" if nb else "B=0", portkind], "tags": [f"e2e:{what.split('-')[0]}:{'v6' if v6 else 'v4'}"], "nontrivial": nb > 0,
+           "sample": {"case": case["id"], "flow": what, "endpoints": ep.describe(), "packets": len(allitems), "corrupted": nb, "mode": mode, "options": ["-c"] + extra}}
     for r, tag in ((r1, "run with -c on the capture with corrupted packets"), (r2, "reference run without -c on the capture with those packets removed")):
         fail = e2e.run_failed(r)
         if fail:
